@@ -120,6 +120,9 @@ func init() {
 	prims["vSched"] = func(ex *Exec, fr *Frame, site ssa.Instruction, a []Value) Value {
 		on, _ := a[0].(*Term).BoolVal()
 		ex.schedOn = on
+		if on {
+			ex.everSched = true
+		}
 		ex.maxSwitch = ex.concreteInt(a[1], "max switches", site)
 		ex.switches = 0 // the budget counts preemptions (voluntary switches at sync points) from here on
 		return nil
@@ -228,6 +231,16 @@ func init() {
 			return bvInt(1)
 		}
 		return bvInt(0)
+	}
+	prims["vGoroutines"] = func(ex *Exec, fr *Frame, site ssa.Instruction, a []Value) Value {
+		// goroutines of the code under test that have not finished (the calling goroutine excluded)
+		n := 0
+		for _, t := range ex.threads {
+			if t != ex.cur && !t.done && !t.isMain {
+				n++
+			}
+		}
+		return bvInt(int64(n))
 	}
 	prims["vEnvCalls"] = func(ex *Exec, fr *Frame, site ssa.Instruction, a []Value) Value {
 		// number of time.After / time.Sleep calls seen so far
